@@ -400,3 +400,37 @@ Proof.
     rewrite (Z.mul_comm s q). apply Z.mul_lt_mono_pos_r; lia.
 Qed.
 Print Assumptions fold_congr_range.
+
+(* ====================================================================== *)
+(* S9  the computation as the code writes it equals the model              *)
+(* ====================================================================== *)
+
+Lemma shift1_reim : forall D c s, shift1 D c s = s + reim D (c - s).
+Proof. intros D c s. unfold shift1, reim. ring. Qed.
+
+Lemma shift3_reimage : forall D c s, shift3 D c s = vadd3 s (reimage D (vsub3 c s)).
+Proof. intros D c s. dv c; dv s. cbn [shift3 vsub3 reimage vadd3]. rewrite !shift1_reim. reflexivity. Qed.
+
+Theorem point_literal_is_model : forall D o inv site p, inverse_of o inv ->
+  point_literal D o inv site p = mulv (W inv) (reimage D (vsub3 p (apply_op o site))).
+Proof.
+  intros D o inv site p [Hinv Hw]. unfold point_literal. rewrite shift3_reimage.
+  set (r := reimage D (vsub3 p (apply_op o site))).
+  unfold apply_op. rewrite Hw, !mulv_add, (is_inverse_spec _ _ Hinv).
+  destruct (mulv (W inv) (wt o)) as [[a1 a2] a3]. destruct (mulv (W inv) r) as [[b1 b2] b3]. dv site. veq.
+Qed.
+Print Assumptions point_literal_is_model.
+
+Theorem points_literal_is_model : forall D G K r2 ops site positions,
+  (forall oi, In oi ops -> inverse_of (fst oi) (snd oi)) ->
+  points_literal D G K r2 ops site positions = points D G K r2 (map (fun oi => (fst oi, W (snd oi))) ops) site positions.
+Proof.
+  intros D G K r2 ops site positions. induction ops as [|oi ops IH]; intros H; [reflexivity|].
+  unfold points_literal, points in *. cbn [flat_map map fst snd]. f_equal.
+  - unfold points_op. apply map_ext. intros q. apply point_literal_is_model. apply H. left. reflexivity.
+  - apply IH. intros x Hx. apply H. right. exact Hx.
+Qed.
+Print Assumptions points_literal_is_model.
+
+Example inverse_of_screw : inverse_of {| W := W_rot; wt := (50, 0, 25) |} {| W := W_rot_inv; wt := (0, 50, -25) |}.
+Proof. split; vm_compute; reflexivity. Qed.
